@@ -43,5 +43,16 @@ m = {
     "not_applicable": na,
     "notes": "see DESIGN.md; known_findings.json lists genuine defects (fixed / known)",
 }
-json.dump(m, open(os.path.join(ROOT, "MANIFEST.json"), "w"), indent=1)
+def atomic(path, obj):
+    tmp = path + ".tmp%d" % os.getpid()
+    json.dump(obj, open(tmp, "w"), indent=1)
+    os.replace(tmp, path)
+atomic(os.path.join(ROOT, "MANIFEST.json"), m)
+# known_findings.json = merge of findings/C*.json (one file per property, hand-written, committed)
+fnd = []
+for f in sorted(glob.glob(os.path.join(ROOT, "findings", "C*.json"))):
+    fnd += json.load(open(f))
+atomic(os.path.join(ROOT, "known_findings.json"), {
+    "_comment": "Genuine defects of keep-core found by the checks (merged from findings/C*.json by mkmanifest.py; never written by a check run). kind=known: recorded, matched by regex on '<op>\\t<impl observation>\\t<monitor verdict>' and printed as KNOWN-FINDING; kind=fixed: repaired by a 'fix:' commit in /repo, suppresses nothing.",
+    "findings": fnd})
 print("claimed", len(checks), "unclaimed", len(na))
